@@ -25,6 +25,8 @@ func init() {
 			"C03.R2 one length value for all channel buffers; window arithmetic of the per-group demultiplexing (E3)",
 			"C03.R3 guard dominance (E6) on the seed of the expected sequence number; loop shape of the queue walk",
 			"C03.R4 dominance order of the per-group calls inside the tick",
+			"C03.R6 gap filling: every counter result is advanced in the innermost loop that creates one filler packet per missing sequence number",
+			"C03.R7 trimming: on every path to a return the queue was last found empty or starting at a sequence number not below the common one (edge-sensitive path walk)",
 			"C03.R5 loop-carried counters of the reader loop: accumulation, survival across `continue`, reset after the send",
 		},
 		Assumptions: []string{"AbacoSource/AbacoGroup field and method names (nextFrameNum, queue, lastSN, fillMissingPackets, firstSeqNum, trimPacketsBefore, countSamplesInQueue, demuxData) are name-keyed anchors", "sequence numbers do not wrap around 2^32 within a run"},
@@ -294,14 +296,47 @@ func sameTightLoop(a, b *ssa.BasicBlock) bool {
 	// leave the smallest loop around b: approximate by: the loop header dominating b (nearest dominator that b
 	// reaches back to) also dominates a, and a reaches that header without passing through blocks outside.
 	var hdr *ssa.BasicBlock
-	for d := b; d != nil; d = d.Idom() {
-		back := false
+	// b belongs to the natural loop of header d when it reaches a back-edge predecessor of d
+	// without passing through d (a block after an inner loop is dominated by that loop's header
+	// but is not inside it)
+	inLoopOf := func(x, d *ssa.BasicBlock) bool {
+		if x == d {
+			for _, pr := range d.Preds {
+				if d.Dominates(pr) {
+					return true
+				}
+			}
+			return false
+		}
 		for _, pr := range d.Preds {
-			if d.Dominates(pr) && BlockReaches(b, pr) {
-				back = true
+			if !d.Dominates(pr) {
+				continue
+			}
+			seen := map[*ssa.BasicBlock]bool{d: true}
+			var walk func(y *ssa.BasicBlock) bool
+			walk = func(y *ssa.BasicBlock) bool {
+				if y == pr {
+					return true
+				}
+				if seen[y] {
+					return false
+				}
+				seen[y] = true
+				for _, sc := range y.Succs {
+					if walk(sc) {
+						return true
+					}
+				}
+				return false
+			}
+			if walk(x) {
+				return true
 			}
 		}
-		if back {
+		return false
+	}
+	for d := b; d != nil; d = d.Idom() {
+		if inLoopOf(b, d) {
 			hdr = d
 			break
 		}
@@ -350,9 +385,12 @@ func runC03(p *Prog, r *Report) {
 	r.MinInstances["C03.R3"] = 4
 	r.MinInstances["C03.R4"] = 3
 	r.MinInstances["C03.R5"] = 4
+	r.MinInstances["C03.R6"] = 3
+	r.MinInstances["C03.R7"] = 1
 	frameRule(p, r, "C03.R1", func(fs frameSite) bool { return strings.Contains(FuncName(fs.fn), "AbacoSource") })
 	c03R2R4R5(p, r)
 	c03R3(p, r)
+	c03R6R7(p, r)
 }
 
 func c03R2R4R5(p *Prog, r *Report) {
@@ -762,4 +800,189 @@ func ctrlOfEdgeInto(b *ssa.BasicBlock) []ctrl {
 		out = append(out, ctrlOfEdge(pr, b)...)
 	}
 	return out
+}
+
+// ---- R6: one count per filled packet;  R7: the trimmed queue starts at the common packet ---------
+
+// pathsNotEstablishing walks the CFG edge by edge and returns the Return instructions that can
+// be reached in a state where no "good" edge has been taken since the last invalidating
+// instruction.
+func pathsNotEstablishing(fn *ssa.Function, good func(from *ssa.BasicBlock, succ int) bool, invalidates func(ssa.Instruction) bool) []ssa.Instruction {
+	type st struct {
+		b  *ssa.BasicBlock
+		ok bool
+	}
+	seen := map[st]bool{}
+	var out []ssa.Instruction
+	var walk func(b *ssa.BasicBlock, ok bool)
+	walk = func(b *ssa.BasicBlock, ok bool) {
+		k := st{b, ok}
+		if seen[k] {
+			return
+		}
+		seen[k] = true
+		for _, in := range b.Instrs {
+			if invalidates(in) {
+				ok = false
+			}
+			if _, isRet := in.(*ssa.Return); isRet && !ok {
+				out = append(out, in)
+			}
+		}
+		for i, s := range b.Succs {
+			walk(s, ok || good(b, i))
+		}
+	}
+	if len(fn.Blocks) > 0 {
+		walk(fn.Blocks[0], false)
+	}
+	return out
+}
+
+func c03R6R7(p *Prog, r *Report) {
+	// R6: in the gap-filling function every counter result is advanced in the same innermost
+	// loop as the creation of a filler packet, once per filler
+	for _, fn := range p.LibFuncs() {
+		if fn.Signature.Recv() == nil || typeName(fn.Signature.Recv().Type()) != "AbacoGroup" {
+			continue
+		}
+		var mk ssa.Instruction
+		Instrs(fn, func(in ssa.Instruction) {
+			if cc := CallOf(in); cc != nil && cc.StaticCallee() != nil && cc.StaticCallee().Name() == "MakePretendPacket" {
+				mk = in
+			}
+		})
+		if mk == nil {
+			continue
+		}
+		r.Fn(FuncName(fn))
+		// counters: integer named results (spilled or phi-carried): stores/adds whose value is old + something
+		res := fn.Signature.Results()
+		for i := 0; i < res.Len(); i++ {
+			name := res.At(i).Name()
+			if name == "" || !isIntLike(res.At(i).Type()) {
+				continue
+			}
+			// find the additions that feed this result: BinOp ADD whose comment/name chain leads to the
+			// returned value i
+			var adds []*ssa.BinOp
+			seen := map[ssa.Value]bool{}
+			var walk func(v ssa.Value)
+			walk = func(v ssa.Value) {
+				if v == nil || seen[v] {
+					return
+				}
+				seen[v] = true
+				switch x := v.(type) {
+				case *ssa.Phi:
+					for _, e := range x.Edges {
+						walk(e)
+					}
+				case *ssa.BinOp:
+					if x.Op == token.ADD {
+						adds = append(adds, x)
+						walk(x.X)
+					}
+				case *ssa.UnOp:
+					if a, ok := x.X.(*ssa.Alloc); ok && x.Op == token.MUL {
+						for _, ref := range *a.Referrers() {
+							if st, ok := ref.(*ssa.Store); ok && st.Addr == ssa.Value(a) {
+								walk(st.Val)
+							}
+						}
+					}
+				}
+			}
+			Instrs(fn, func(in ssa.Instruction) {
+				if ret, ok := in.(*ssa.Return); ok && i < len(ret.Results) {
+					walk(ret.Results[i])
+				}
+			})
+			if len(adds) == 0 {
+				r.Bad("C03.R6", FuncName(fn)+": "+name+" counts every filler packet", p.Pos(fn.Pos()), "the result is never advanced")
+				continue
+			}
+			ok := true
+			where := ""
+			for _, a := range adds {
+				if !(InLoopWith(a, mk) || a.Block() == mk.Block()) || !sameTightLoop(a.Block(), mk.Block()) && a.Block() != mk.Block() {
+					ok = false
+					where = p.InstrPos(a)
+				}
+			}
+			r.Check(ok, "C03.R6", FuncName(fn)+": "+name+" counts every filler packet", p.InstrPos(mk), "advanced in the loop that makes the fillers, once per filler",
+				"the count is advanced at "+where+", outside the loop that creates one filler packet per missing sequence number: a burst of several lost packets is reported as one, so the dropped-frame figures handed on with the block are too small")
+		}
+	}
+	// R7: trimming: on every return the queue is empty or its head is not older than the common packet
+	fn := p.Func("", "AbacoGroup", "trimPacketsBefore")
+	if fn == nil {
+		r.Unk("C03.anchor", "AbacoGroup.trimPacketsBefore", "-", "anchor not found")
+		return
+	}
+	r.Fn(FuncName(fn))
+	isSN := func(v ssa.Value) bool {
+		c, ok := stripConv(v).(*ssa.Call)
+		return ok && c.Call.StaticCallee() != nil && c.Call.StaticCallee().Name() == "SequenceNumber"
+	}
+	isLenQueue := func(v ssa.Value) bool {
+		c, ok := stripConv(v).(*ssa.Call)
+		if !ok {
+			return false
+		}
+		b, isB := c.Call.Value.(*ssa.Builtin)
+		if !isB || b.Name() != "len" {
+			return false
+		}
+		_, f, _, okf := FieldOf(c.Call.Args[0])
+		return okf && f == "queue"
+	}
+	good := func(b *ssa.BasicBlock, succ int) bool {
+		iff, ok := b.Instrs[len(b.Instrs)-1].(*ssa.If)
+		if !ok {
+			return false
+		}
+		bo, ok := iff.Cond.(*ssa.BinOp)
+		if !ok {
+			return false
+		}
+		t := succ == 0
+		k, isK := constInt(bo.Y)
+		switch {
+		case isSN(bo.X) && !isSN(bo.Y): // sn OP first
+			return (bo.Op == token.GEQ && t) || (bo.Op == token.LSS && !t)
+		case isSN(bo.Y) && !isSN(bo.X): // first OP sn
+			return (bo.Op == token.LEQ && t) || (bo.Op == token.GTR && !t)
+		case isLenQueue(bo.X) && isK:
+			switch bo.Op {
+			case token.EQL:
+				return k == 0 && t
+			case token.NEQ:
+				return k == 0 && !t
+			case token.GTR:
+				return k == 0 && !t
+			case token.LEQ:
+				return k == 0 && t
+			case token.LSS:
+				return k == 1 && t
+			case token.GEQ:
+				return k == 1 && !t
+			}
+		}
+		return false
+	}
+	bad := pathsNotEstablishing(fn, good, func(in ssa.Instruction) bool {
+		st, ok := in.(*ssa.Store)
+		if !ok {
+			return false
+		}
+		_, f, _, okf := FieldOf(st.Addr)
+		return okf && f == "queue"
+	})
+	pos := p.Pos(fn.Pos())
+	if len(bad) > 0 {
+		pos = p.InstrPos(bad[0])
+	}
+	r.Check(len(bad) == 0, "C03.R7", "after trimming, the queue is empty or starts at a packet not older than the common first packet", pos, "every return follows a test that established it for the current queue",
+		"a return is reachable where the queue was last found neither empty nor starting at or after the common sequence number (for example one stale packet is left when the whole queue predates it): that packet is demultiplexed as if aligned with the other groups, channels are shifted against each other by a packet")
 }
